@@ -9,6 +9,7 @@ COQ_MODULE = "Prop_C17"
 THEOREMS = ['C17_every_history', 'C17_fmt_never_waits', 'C17_fmt_no_disturbance', 'C17_accessors_no_raw_ops']
 CASE_MODULES = ["Pf_Hist", "Monitors"]
 CHECK_WITHOUT_PROOF = True
+SHRINK_GUARD = 0      # which of the booleans evaluated with the verdict certifies the theorem's hypotheses
 TRUSTED = common.TRUSTED_COMMON
 ASSUMPTIONS = common.ASSUME_COMMON
 RULE = 'random API histories (1-3 threads, 4-14 calls, API-call-atomic) over a random universe of single locks, poisonable wrappers and collections of every kind / container / nesting depth <= 2 sharing leaves, with random holds of other threads present from the start; vocabulary adds Debug formatting of every lock / collection, is_poisoned, clear_poison, while locks are held by other threads and by the caller itself; observation = raw operations + hold table; non-trivial = a non-acquiring call while something is held; distinct = scenario text; plus, exhaustively, every accessor (get_mut, as_mut, child_mut, iter_mut, child, as_ref, iter, Debug, is_poisoned, clear_poison, into_child, into_inner) of every owner kind (Mutex, RwLock, Poisonable, owned / retrying / boxed / ref collection of 1-3 locks) on an object whose locks are free or held through a leaked guard: the vector of held member locks seen by another thread must be the same before and after, and the call must not wait'
